@@ -711,6 +711,7 @@ fn scenario_case(rng: &mut Rng, std: &Module, w: &mut CaseWriter) {
         Outcome::CompileErr(e) => { w.count("scenario.compile_error"); if std::env::var("C15_TRACE").is_ok() { eprintln!("scenario compile error {:?}: {}", e, modgen::coq_module(&sc.module)); } }
         Outcome::Panic => w.count("scenario.panic"),
         Outcome::Ok { .. } => { w.count("scenario.ran_ok"); if std::env::var("C15_TRACE").is_ok() { eprintln!("scenario ran ok: {:?} {:?} {}", sc.fault, sc.hops, modgen::coq_module(&sc.module)); } }
+        Outcome::Err { payload, .. } if sc.fault == Fault::MissingGlobal && !payload.contains("(EVarNotFound (Some") => w.count("scenario.missing_global_read_nil"),
         Outcome::Err { payload, trace, .. } => {
             w.count("stream.scenario");
             w.count(&format!("fault.{}", sc.fault.name()));
@@ -730,8 +731,17 @@ fn scenario_case(rng: &mut Rng, std: &Module, w: &mut CaseWriter) {
 // planted stream: one fault wrapped around a random position of a program that runs to completion
 // ------------------------------------------------------------------------------------------------
 
+/// tag 99; a bare native call: storing its result in a local could fail by itself (a local declared earlier but
+/// skipped at run time leaves the stack lower than the slot index)
 fn marker_card() -> Card {
-    sv("c15_m", native("log1", vec![int(MARKER)]))
+    tagged(native("log1", vec![int(MARKER)]), 99)
+}
+fn module_mentions_native(m: &Module, name: &str) -> bool {
+    let mut found = false;
+    walk_module(m, &mut vec![], &mut |_, c| {
+        if let CardBody::CallNative(n) = &c.body { if n.name.as_str() == name { found = true; } }
+    });
+    found
 }
 
 fn module_at_mut<'a>(root: &'a mut Module, ns: &[String]) -> Option<&'a mut Module> {
@@ -828,6 +838,8 @@ fn gen_bases(rng: &mut Rng, std: &Module, w: &mut CaseWriter, want: usize) -> (V
 }
 
 fn planted_case(rng: &mut Rng, std: &Module, w: &mut CaseWriter, base: &Base) -> bool {
+    // try1 swallows the error of the function it calls: a fault planted below it is not the error of the run
+    if module_mentions_native(&base.module, "try1") { w.count("plant.base_with_try1_skipped"); return false; }
     let locs = all_locs(&base.module);
     if locs.is_empty() { return false; }
     for _attempt in 0..12 {
@@ -845,6 +857,12 @@ fn planted_case(rng: &mut Rng, std: &Module, w: &mut CaseWriter, base: &Base) ->
             Outcome::Err { payload, trace, timeout, .. } => {
                 if fault == Fault::TimeoutLoop && !timeout { w.count("plant.other_error_after"); continue; }
                 if fault != Fault::TimeoutLoop && (timeout || payload.contains("ETimeout")) { w.count("plant.budget_ran_out_first"); continue; }
+                // reading a never-set global yields nil when a global with a higher id has been set: no fault then
+                if fault == Fault::MissingGlobal && !payload.contains("(EVarNotFound (Some") { w.count("plant.missing_global_read_nil"); continue; }
+                // the marker card itself failed (value stack full)
+                if let Some(h) = trace.first() { if resolve(&m, std, h).self_tag == Some(99) { w.count("plant.marker_failed"); continue; } }
+                // a Timeout raised in a nested run under try1 is swallowed and raised again by the next outer instruction
+                if fault == Fault::TimeoutLoop && module_mentions_native(&m, "try1") { w.count("plant.timeout_under_try1"); continue; }
                 let tags = tag_locs(&m);
                 let Some(planted) = tags.get(&0).cloned() else { continue };
                 w.count("stream.planted");
